@@ -3,6 +3,7 @@
 all registered checks (quick, no self-test) and compare with the recorded verdict.  Writes /verif/seeded/RESULTS.json.
 Never run by a registered check."""
 import json, os, subprocess, sys, glob
+from concurrent.futures import ThreadPoolExecutor
 
 os.chdir("/verif")
 props = [c["property_id"] for c in json.load(open("MANIFEST.json"))["checks"]]
@@ -18,8 +19,13 @@ for d in sorted(glob.glob("/verif/seeded/C*-*/")):
     try:
         codes = {}
         rules = {}
-        for p in props:
-            r = subprocess.run(["./check", p, "--tier", "quick", "--no-selftest"], capture_output=True, text=True)
+
+        def one(p):
+            return p, subprocess.run(["./check", p, "--tier", "quick", "--no-selftest"], capture_output=True, text=True)
+
+        with ThreadPoolExecutor(14) as ex:
+            outs = list(ex.map(one, props))
+        for p, r in outs:
             codes[p] = r.returncode
             if r.returncode == 1:
                 rules[p] = sorted({ln.split("[", 1)[1].split("]", 1)[0] for ln in r.stdout.splitlines() if ": [" in ln and not ln.startswith("KNOWN")})
